@@ -95,7 +95,7 @@ class UnitResult:
 class Unit:
     def __init__(self, name, relpath, selector, setup, post=None, loops=None, nth=None,
                  contextmanager=False, drop=None, expect_min_obligations=1, prop=None,
-                 replay=None, on_yield=None, notes='', local_types=None, stmt=None):
+                 replay=None, on_yield=None, notes='', local_types=None, stmt=None, node_loader=None):
         self.name, self.relpath, self.selector = name, relpath, selector
         self.setup, self.post, self.loops, self.nth = setup, post, loops or {}, nth
         self.contextmanager, self.drop = contextmanager, drop
@@ -106,13 +106,17 @@ class Unit:
         self.notes = notes
         self.local_types = local_types or {}
         self.stmt = stmt
+        self.node_loader = node_loader
 
     def target(self):
         return f'{self.relpath}::{self.selector}' + (f'#{self.nth}' if self.nth is not None else '') + (f'::{self.stmt}' if self.stmt else '')
 
     def execute(self):
         """-> (obligations, info dict).  raises Unsupported when undecided."""
-        node = source.select(self.relpath, self.selector, self.nth)
+        if self.node_loader is not None:
+            node = self.node_loader()
+        else:
+            node = source.select(self.relpath, self.selector, self.nth)
         interp = Interp(self.name, loops=self.loops, contextmanager=self.contextmanager,
                         drop=self.drop, local_types=self.local_types)
         interp.on_yield = self.on_yield
@@ -136,7 +140,8 @@ class Unit:
         obligations = interp.obligations + res.extra
         info = {
             'target': self.target(),
-            'source_hash': source.node_hash(self.relpath, node),
+            'source_hash': (source.node_hash(self.relpath, node) if self.node_loader is None
+                            else __import__('hashlib').sha256(getattr(node, 'cxx_text', '').encode()).hexdigest()[:16]),
             'paths': len(paths),
             'path_kinds': sorted({p.kind + (':' + p.value.cls if p.kind == 'raise' else '') for p in paths}),
             'dropped_calls': dict(interp.dropped_calls),
